@@ -121,7 +121,7 @@ def r152(prog, chk):
     chk.ob("R15.2", "IDENTITY_2x2 = fontTools Identity[:4]", ok, mi.relpath, detail=T(e) if e is not None else "", message="IDENTITY_2x2 is no longer the 2x2 part of fontTools' identity transform")
     it = ix.get_func(f"{DT}:_isTransformed")
     r = A.returns_of(it.node)
-    ok = len(r) == 1 and isinstance(r[0].value, ast.Compare) and isinstance(r[0].value.ops[0], ast.NotEq) and T(r[0].value.left) == f"{it.params()[0]}.transformation[:4]" and T(r[0].value.comparators[0]) == "IDENTITY_2x2"
+    ok = len(r) == 1 and isinstance(r[0].value, ast.Compare) and isinstance(r[0].value.ops[0], ast.NotEq) and {T(r[0].value.left), T(r[0].value.comparators[0])} == {f"{it.params()[0]}.transformation[:4]", "IDENTITY_2x2"}
     chk.ob("R15.2", f"{it.short}|transformed = 2x2 differs from the identity (offsets ignored)", ok, where(it), detail=T(r[0].value) if r else "",
            message=f"{it.short}: a component counts as transformed for another reason than its 2x2 part (pure offsets would be decomposed, or scaled ones kept)")
     for cls, arg in (("DecomposeTransformedComponentsFilter", None), ("DecomposeTransformedComponentsIFilter", None)):
